@@ -26,6 +26,7 @@ DECIDES = (
     ' mirror_matrix is a reflection (C17.MIRROR-MATRIX = C09.MIRROR-MATRIX); angle_between clips its cosine on both sides (C17.TRIG-DOMAIN); no constructor parameter of clamps/links/point helpers is overwritten before it is read (C17.PARAMS-USED); vector-annotated parameters receive vectors, norm() is taken of vectors (C17.AFFINE-KINDS).'
     " RotationLink.transform turns the ORIGINAL follower by the measured angle also for a half turn (abstract run, part of C17.LINK-ALGEBRA); constructors keep private copies (C17.OWNS-GEOMETRY); angles are dimensionless (C17.ANGLE-DIMENSION); the coarse closest-parameter search covers the curve's own range (C17.CLOSEST-SEARCH)."
     ' What GridBase.update writes and returns (C17.WHO-WRITES-POINTS); arrays stored into in place are float arrays (C17.FLOAT-STORES).'
+    ' SymmetryLink places the follower at the exact mirror image for leaders on either side of the plane (C17.SYMMETRY-EXACT); angle_between returns the angle in [0, pi] for acute, right, obtuse and opposite pairs (C17.ANGLE-BETWEEN) - both by exact rational evaluation.'
 )
 NOT_DECIDED = "closest-point initialisation, circle radius/height, rotation angles (numerics)."
 ASSUMPTIONS = []
